@@ -356,13 +356,65 @@ Definition model_input (fmt kt proto ia : N) (h : host) : option bytes :=
   | _ => hh_input h
   end.
 
+(** the fields of a derivation input, read back from the bytes (fmt as in [CInput]):
+    (key type, protocol, address type, address / ISD-AS bytes); [None] unless the
+    length is the padded length and the padding is zero *)
+Definition all_zero (l : bytes) : bool := forallb (N.eqb 0) l.
+
+Definition decode_input (fmt : N) (i : bytes) : option (N * N * N * bytes) :=
+  match fmt with
+  | 0 =>
+    match i with
+    | kt :: r => if Nat.eqb (length i) 16 && all_zero (skipn 8 r)
+                 then Some (kt, 0, 0, firstn 8 r) else None
+    | _ => None
+    end
+  | 2 =>
+    match i with
+    | kt :: a :: b :: t :: r =>
+      let n := addr_len t in
+      if Nat.eqb (length i) (input_len (4 + n)) && all_zero (skipn n r)
+      then Some (kt, unbe [a; b], t, firstn n r) else None
+    | _ => None
+    end
+  | _ =>
+    match i with
+    | kt :: t :: r =>
+      let n := addr_len t in
+      if Nat.eqb (length i) (input_len (2 + n)) && all_zero (skipn n r)
+      then Some (kt, 0, t, firstn n r) else None
+    | _ => None
+    end
+  end.
+
+(** the fields an input is supposed to carry *)
+Definition input_fields (fmt kt proto ia : N) (h : host) : option (N * N * N * bytes) :=
+  match fmt with
+  | 0 => Some (kt_as_as, 0, 0, be 8 ia)
+  | 1 => match pack_addr h with Some (t, raw) => Some (kt, 0, t, raw) | None => None end
+  | 2 => match pack_addr h with Some (t, raw) => Some (kt, unbe (be 2 proto), t, raw) | None => None end
+  | _ => match pack_addr h with Some (t, raw) => Some (kt_host_host, 0, t, raw) | None => None end
+  end.
+
+Definition fields_eqb (x y : N * N * N * bytes) : bool :=
+  let '(a, b, c, d) := x in let '(a', b', c', d') := y in
+  (a =? a') && (b =? b') && (c =? c') && bytes_eqb d d'.
+
+(** separation oracle: an input that was produced decodes to exactly its fields *)
+Definition input_ok (fmt kt proto ia : N) (h : host) (out : option bytes) : bool :=
+  match out with
+  | None => true
+  | Some i => option_eqb fields_eqb (decode_input fmt i) (input_fields fmt kt proto ia h)
+  end.
+
 Definition check (c : case) : N :=
   match c with
   | CConsts kts g types =>
     Check.verdict (list_eqb N.eqb [kt_as_as; kt_as_host; kt_host_as; kt_host_host] kts &&
                    (g =? grace_ns)%Z && list_eqb N.eqb [T4Ip; T4Svc; T16Ip] types) true
   | CInput fmt kt proto ia h impl =>
-    Check.verdict (option_eqb bytes_eqb (model_input fmt kt proto ia h) impl) true
+    Check.verdict (option_eqb bytes_eqb (model_input fmt kt proto ia h) impl)
+                  (input_ok fmt kt proto ia h impl)
   | CDerive durs svs prfs loc p t src dst sh dh ie ih =>
     let prf := prf_tab prfs in
     let sv := sv_tab svs in
